@@ -299,6 +299,15 @@ def audit(prop: str):
     return result
 
 
+def leanchecker(prop: str):
+    """thorough tier: re-check the compiled .olean files of the property's modules with the toolchain's
+    independent checker.  Returns (ok, output)."""
+    modules = sorted({o['module'] for o in obligations().get(prop, [])})
+    with flock(CACHE / 'lake.lock'):
+        r = _run(['lake', 'env', 'leanchecker'] + modules, cwd=LEAN, timeout=1800)
+    return r.returncode == 0, r.stdout[-1500:]
+
+
 # ------------------------------------------------------------------------------------------------
 # evidence
 # ------------------------------------------------------------------------------------------------
